@@ -84,21 +84,54 @@ pub proof fn lemma_step(t0: OpMap, ops0: Map<LuaOperatorId, LuaOperator>, ids: S
         lemma_filter_ext(s, op_kept(ops0, ids, n1, o, p), and_pred(op_kept(ops0, ids, n, o, p), is_not(id)));
     }
 }
+/// tm_inv moves from n to n1 for a map `t` in which every existing vector's filter is the same at n and n1 and every
+/// missing vector's filter can only have shrunk
+pub proof fn lemma_tm_same(t0: OpMap, t: OpMap, ops0: Map<LuaOperatorId, LuaOperator>, ids: Seq<LuaOperatorId>, n: int, n1: int)
+    requires tm_inv(t0, t, ops0, ids, n),
+        forall|o: LuaOperatorOwner, p: LuaOperatorMetaMethod| #![trigger tv_has(t0, o, p)] tv_has(t0, o, p) && tv_has(t, o, p) ==>
+            tv(t0, o, p).filter(op_kept(ops0, ids, n1, o, p)) == tv(t0, o, p).filter(op_kept(ops0, ids, n, o, p)),
+        forall|o: LuaOperatorOwner, p: LuaOperatorMetaMethod| #![trigger tv_has(t0, o, p)] tv_has(t0, o, p) && !tv_has(t, o, p) ==>
+            tv(t0, o, p).filter(op_kept(ops0, ids, n1, o, p)).len() <= tv(t0, o, p).filter(op_kept(ops0, ids, n, o, p)).len(),
+    ensures tm_inv(t0, t, ops0, ids, n1),
+{
+    reveal(tm_inv);
+    assert forall|o: LuaOperatorOwner, p: LuaOperatorMetaMethod| #![trigger tv_has(t0, o, p)] tv_has(t, o, p) implies
+        tv_has(t0, o, p) && tv(t, o, p) == tv(t0, o, p).filter(op_kept(ops0, ids, n1, o, p)) by {
+        assert(tv_has(t0, o, p));
+    }
+    assert forall|o: LuaOperatorOwner, p: LuaOperatorMetaMethod| #![trigger tv_has(t0, o, p)] tv_has(t0, o, p) && !tv_has(t, o, p) implies
+        tv(t0, o, p).filter(op_kept(ops0, ids, n1, o, p)).len() == 0 by {
+        assert(tv(t0, o, p).filter(op_kept(ops0, ids, n, o, p)).len() == 0);
+    }
+}
 /// exit "operators.remove(&id) is None": id never was an operator, or was processed before
 pub proof fn lemma_skip_dead(t0: OpMap, t: OpMap, ops0: Map<LuaOperatorId, LuaOperator>, ids: Seq<LuaOperatorId>, n: int, n1: int)
     requires 0 <= n < ids.len(), n1 == n + 1, tm_inv(t0, t, ops0, ids, n), !ops0.contains_key(ids[n]) || in_prefix(ids, n, ids[n]),
     ensures tm_inv(t0, t, ops0, ids, n1),
 {
-    reveal(tm_inv);
     lemma_step(t0, ops0, ids, n, n1);
+    assert forall|o: LuaOperatorOwner, p: LuaOperatorMetaMethod| #![trigger tv_has(t0, o, p)] tv_has(t0, o, p) implies
+        tv(t0, o, p).filter(op_kept(ops0, ids, n1, o, p)) == tv(t0, o, p).filter(op_kept(ops0, ids, n, o, p)) by {}
+    lemma_tm_same(t0, t, ops0, ids, n, n1);
 }
 /// exit "type_operators_map has no entry for the operator's owner"
 pub proof fn lemma_skip_owner(t0: OpMap, t: OpMap, ops0: Map<LuaOperatorId, LuaOperator>, ids: Seq<LuaOperatorId>, n: int, n1: int)
     requires 0 <= n < ids.len(), n1 == n + 1, tm_inv(t0, t, ops0, ids, n), ops0.contains_key(ids[n]), !t.contains_key(ops0[ids[n]].owner),
     ensures tm_inv(t0, t, ops0, ids, n1),
 {
-    reveal(tm_inv);
     lemma_step(t0, ops0, ids, n, n1);
+    let owner = ops0[ids[n]].owner; let op = ops0[ids[n]].op;
+    assert forall|o: LuaOperatorOwner, p: LuaOperatorMetaMethod| #![trigger tv_has(t0, o, p)] tv_has(t0, o, p) && tv_has(t, o, p) implies
+        tv(t0, o, p).filter(op_kept(ops0, ids, n1, o, p)) == tv(t0, o, p).filter(op_kept(ops0, ids, n, o, p)) by {
+        assert(o != owner);
+    }
+    assert forall|o: LuaOperatorOwner, p: LuaOperatorMetaMethod| #![trigger tv_has(t0, o, p)] tv_has(t0, o, p) && !tv_has(t, o, p) implies
+        tv(t0, o, p).filter(op_kept(ops0, ids, n1, o, p)).len() <= tv(t0, o, p).filter(op_kept(ops0, ids, n, o, p)).len() by {
+        if !(o == owner && p == op) {
+            assert(tv(t0, o, p).filter(op_kept(ops0, ids, n1, o, p)) == tv(t0, o, p).filter(op_kept(ops0, ids, n, o, p)));
+        }
+    }
+    lemma_tm_same(t0, t, ops0, ids, n, n1);
 }
 /// exit "the owner's map has no entry for the operator's meta method": the map is handed back with the same view
 pub proof fn lemma_skip_op(t0: OpMap, t: OpMap, ops0: Map<LuaOperatorId, LuaOperator>, ids: Seq<LuaOperatorId>, n: int, n1: int)
@@ -106,12 +139,43 @@ pub proof fn lemma_skip_op(t0: OpMap, t: OpMap, ops0: Map<LuaOperatorId, LuaOper
         t.contains_key(ops0[ids[n]].owner), !t[ops0[ids[n]].owner]@.contains_key(ops0[ids[n]].op),
     ensures forall|x: HashMap<LuaOperatorMetaMethod, Vec<LuaOperatorId>>| x@ == t[ops0[ids[n]].owner]@ ==> tm_inv(t0, #[trigger] t.insert(ops0[ids[n]].owner, x), ops0, ids, n1),
 {
-    reveal(tm_inv);
     lemma_step(t0, ops0, ids, n, n1);
-    let owner = ops0[ids[n]].owner;
+    let owner = ops0[ids[n]].owner; let op = ops0[ids[n]].op;
     assert forall|x: HashMap<LuaOperatorMetaMethod, Vec<LuaOperatorId>>| x@ == t[owner]@ implies tm_inv(t0, #[trigger] t.insert(owner, x), ops0, ids, n1) by {
         let t2 = t.insert(owner, x);
-        assert forall|o: LuaOperatorOwner, p: LuaOperatorMetaMethod| #![trigger tv_has(t0, o, p)] tv_has(t2, o, p) == tv_has(t, o, p) && tv(t2, o, p) == tv(t, o, p) by {}
+        assert forall|o: LuaOperatorOwner, p: LuaOperatorMetaMethod| #![trigger tv_has(t0, o, p)] tv_has(t2, o, p) == tv_has(t, o, p) && tv(t2, o, p) == tv(t, o, p) by {
+            if o == owner { assert(t2[o]@ == t[o]@); } else { assert(t2.contains_key(o) == t.contains_key(o)); if t.contains_key(o) { assert(t2[o] == t[o]); } }
+        }
+        assert(tm_inv(t0, t2, ops0, ids, n)) by {
+            reveal(tm_inv);
+            assert forall|o: LuaOperatorOwner| #[trigger] t0.contains_key(o) || !t2.contains_key(o) by {
+                if o != owner { assert(t2.contains_key(o) == t.contains_key(o)); }
+            }
+            assert forall|o: LuaOperatorOwner, p: LuaOperatorMetaMethod| #![trigger tv_has(t0, o, p)] tv_has(t2, o, p) implies
+                tv_has(t0, o, p) && tv(t2, o, p) == tv(t0, o, p).filter(op_kept(ops0, ids, n, o, p)) by { assert(tv_has(t, o, p)); }
+            assert forall|o: LuaOperatorOwner, p: LuaOperatorMetaMethod| #![trigger tv_has(t0, o, p)] tv_has(t0, o, p) && !tv_has(t2, o, p) implies
+                tv(t0, o, p).filter(op_kept(ops0, ids, n, o, p)).len() == 0 by { assert(!tv_has(t, o, p)); }
+            if no_empty(t0) {
+                assert forall|o: LuaOperatorOwner| #[trigger] t0.contains_key(o) && t2.contains_key(o) implies t2[o]@.len() > 0 by {
+                    if o == owner { assert(t2[o]@ == t[o]@); } else { assert(t2.contains_key(o) == t.contains_key(o)); assert(t2[o] == t[o]); }
+                }
+                assert forall|o: LuaOperatorOwner, p: LuaOperatorMetaMethod| #[trigger] tv_has(t0, o, p) && tv_has(t2, o, p) implies tv(t2, o, p).len() > 0 by {
+                    assert(tv_has(t, o, p));
+                }
+            }
+        }
+        assert forall|o: LuaOperatorOwner, p: LuaOperatorMetaMethod| #![trigger tv_has(t0, o, p)] tv_has(t0, o, p) && tv_has(t2, o, p) implies
+            tv(t0, o, p).filter(op_kept(ops0, ids, n1, o, p)) == tv(t0, o, p).filter(op_kept(ops0, ids, n, o, p)) by {
+            assert(tv_has(t, o, p));
+            assert(!(o == owner && p == op));
+        }
+        assert forall|o: LuaOperatorOwner, p: LuaOperatorMetaMethod| #![trigger tv_has(t0, o, p)] tv_has(t0, o, p) && !tv_has(t2, o, p) implies
+            tv(t0, o, p).filter(op_kept(ops0, ids, n1, o, p)).len() <= tv(t0, o, p).filter(op_kept(ops0, ids, n, o, p)).len() by {
+            if !(o == owner && p == op) {
+                assert(tv(t0, o, p).filter(op_kept(ops0, ids, n1, o, p)) == tv(t0, o, p).filter(op_kept(ops0, ids, n, o, p)));
+            }
+        }
+        lemma_tm_same(t0, t2, ops0, ids, n, n1);
     }
 }
 /// the view of an owner's map after `retain(!= id)`, dropping the vector if it became empty
